@@ -662,6 +662,10 @@ def copy_item(out, sf, kind, name, mode, meta):
             l = 'pub ' + l                            # R7: item visibility normalised
         if kind == 'struct' and re.match(r'^\s+[a-z_][A-Za-z0-9_]*\s*:', l):
             l = re.sub(r'^(\s+)', r'\1pub ', l)   # R7: field visibility normalised (Verus: no opaque fields in specs)
+        if kind == 'struct':
+            mt = re.match(r'^(pub struct \w+)\(([^()]*)\);\s*$', l)
+            if mt:                                    # R7 for a tuple struct: `struct X(u8);` -> `struct X(pub u8);`
+                l = '%s(%s);' % (mt.group(1), ', '.join(f if f.strip().startswith('pub') else 'pub ' + f.strip() for f in mt.group(2).split(',')))
         keep.append((l, line0 + k))
     for l, n in keep:
         out.add(l, {'kind': 'item', 'item': '%s %s' % (kind, name), 'src': (relfile, n)})
